@@ -222,12 +222,19 @@ class Text(ExcelType):
     sort_precedence = 1
 
     def __number__(self):
+        # int() and float() also read '1_000', 'nan' and 'inf', which are no
+        # numbers in a spreadsheet.
+        if '_' in self.value:
+            raise xlerrors.ValueExcelError(
+                f'Could not convert {repr(self.value)} to float.')
         try:
             return int(self.value)
         except ValueError:
             pass
         try:
-            return float(self.value)
+            number = float(self.value)
+            if number - number == 0:
+                return number
         except ValueError:
             pass
         # For arithmetic, boolean text is actually interpreted.
